@@ -3,7 +3,7 @@ from ..variants import fire, silent
 QS = "pennylane/core/qscript.py"
 BNP = "pennylane/ops/functions/bind_new_parameters.py"
 fire("C40", "init-stores-callers-trainable-params",
-     (QS, "            None if trainable_params is None else sorted(set(trainable_params))", "            trainable_params"),
+     (QS, "            ordered = sorted(set(trainable_params))\n            trainable_params = tuple(ordered) if isinstance(trainable_params, tuple) else ordered\n", "            ordered = sorted(set(trainable_params))\n            trainable_params = trainable_params if list(trainable_params) == ordered else ordered\n"),
      "R-C40-alias", "QuantumScript.__init__")
 fire("C40", "init-stores-callers-ops-list",
      (QS, "        self._ops = [] if ops is None else list(ops)", "        self._ops = [] if ops is None else ops"), "R-C40-alias", "QuantumScript.__init__")
@@ -17,10 +17,9 @@ fire("C40", "symbolic-handler-writes-hyperparameters-on-input",
      (BNP, "    new_hyperparameters = copy.deepcopy(op.hyperparameters)\n", "    new_hyperparameters = op.hyperparameters\n    new_hyperparameters[\"rebound\"] = True\n"),
      "R-C40-bind", "bind_new_parameters_symbolic_op")
 silent("C40", "init-sorted-without-set",
-       [(QS, "            None if trainable_params is None else sorted(set(trainable_params))",
-             "            sorted(trainable_params) if trainable_params is not None else None")])
+       [(QS, "            ordered = sorted(set(trainable_params))\n            trainable_params = tuple(ordered) if isinstance(trainable_params, tuple) else ordered\n", "            trainable_params = sorted(trainable_params)\n")])
 fire("C40", "init-keeps-callers-order",
-     (QS, "            None if trainable_params is None else sorted(set(trainable_params))", "            None if trainable_params is None else list(trainable_params)"),
+     (QS, "            ordered = sorted(set(trainable_params))\n            trainable_params = tuple(ordered) if isinstance(trainable_params, tuple) else ordered\n", "            trainable_params = list(trainable_params)\n"),
      "R-C40-canon", "QuantumScript.__init__")
 silent("C40", "generic-handler-shallow-copy",
        [(BNP, "        new_op = copy.deepcopy(op)\n        new_op._data = tuple(params)", "        new_op = copy.copy(op)\n        new_op._data = tuple(params)")])
@@ -32,9 +31,13 @@ fire("C40", "copy-carries-par_info-when-measurements-change",
           "        if \"operations\" not in update and \"par_info\" in self.__dict__:\n            new_qscript.__dict__[\"par_info\"] = self.par_info\n        # copy cached properties when relevant\n"),
      "R-C40-cache", "QuantumScript.copy")
 fire("C40", "copy-carries-batch-size-unconditionally",
-     (QS, "        if not update.get(\"operations\"):\n            # batch size may change if operations were updated\n            new_qscript._batch_size = self._batch_size",
-          "        if not update.get(\"measurements\"):\n            # batch size may change if operations were updated\n            new_qscript._batch_size = self._batch_size"),
+     (QS, "        if \"operations\" not in update:\n            # batch size may change if operations were updated\n            new_qscript._batch_size = self._batch_size",
+          "        if \"measurements\" not in update:\n            # batch size may change if operations were updated\n            new_qscript._batch_size = self._batch_size"),
      "R-C40-cache", "QuantumScript.copy")
-silent("C40", "copy-batch-size-guard-as-not-in",
-       [(QS, "        if not update.get(\"operations\"):\n            # batch size may change if operations were updated\n            new_qscript._batch_size = self._batch_size",
-             "        if \"operations\" not in update:\n            # batch size may change if operations were updated\n            new_qscript._batch_size = self._batch_size")])
+fire("C40", "copy-batch-size-guard-tests-truthiness-of-update-value",
+     (QS, "        if \"operations\" not in update:\n            # batch size may change if operations were updated\n            new_qscript._batch_size = self._batch_size",
+          "        if not update.get(\"operations\"):\n            # batch size may change if operations were updated\n            new_qscript._batch_size = self._batch_size"),
+     "R-C40-cache", "QuantumScript.copy")
+silent("C40", "copy-batch-size-guard-as-negated-in",
+       [(QS, "        if \"operations\" not in update:\n            # batch size may change if operations were updated\n            new_qscript._batch_size = self._batch_size",
+             "        if not (\"operations\" in update):\n            # batch size may change if operations were updated\n            new_qscript._batch_size = self._batch_size")])
